@@ -39,8 +39,11 @@ pub fn exec_box(_ctx: &mut Ctx, t: &mut Toks) -> String {
                 .collect::<Vec<_>>()
                 .join(" ")
         }
-        "poly" => {
+        op @ ("poly" | "polystale") => {
             let u = ubox(t);
+            // `polystale`: the box carries a vertex cache generated under another geometry (gen_vertices, then the public
+            // fields / rotate_mut changed): get_vertices, area and radius must depend on the current fields only
+            let u = if op == "polystale" { stale(&u) } else { u };
             let (c, s) = cs(&u);
             let p = u.get_vertices();
             let mut out = format!("{} {}", f64_tok(c), f64_tok(s));
